@@ -301,6 +301,36 @@ example : ctcResult (commitTreeChanges
 
 example : ∃ t1, insertEntry cexTree ⟨[[0x61], [0x63], [0x64]], 0o100755, idB⟩ = some t1 ∧ cexTree.WF = true := by decide
 
+/-! ## a long-lived RenameDetector is stateless across calls -/
+
+/-- translator obligation: no per-call attribute of RenameDetector can be read before it is (re)assigned on some path
+through changes_with_renames (reset set ⊇ read set) -/
+theorem detector_reset_before_read : Gen.TreeOps.detStaleReads = [] ∧
+    ["_adds", "_deletes", "_changes", "_candidates"].all (Gen.TreeOps.detPerCallAttrs.contains ·) = true := by decide
+
+/-- Call independence, for the code as written and for ANY phase contents (scores, thresholds, `max_files`, copy
+detection, the tree pair): whatever state earlier calls left in the detector — content-rename candidates of another
+pair included — the result of `changes_with_renames` is the result a fresh detector gives.  Every branch either
+recomputes or clears the per-call fields; in particular the `max_files` cut-off is taken AFTER `_candidates` is cleared. -/
+theorem changes_with_renames_stateless (P : DetPhases) (wantUnchanged includeTrees : Bool) (st : DetState) :
+    (detRun P wantUnchanged includeTrees st).1 = (detRun P wantUnchanged includeTrees DetState.init).1 := by
+  have h : ∀ a, detStale a = false := by
+    intro a; simp [detStale, detector_reset_before_read.1]
+  simp [detRun, h]
+
+/-- hence any sequence of calls on one detector returns, call by call, what fresh detectors return -/
+theorem detector_sequence_stateless (P : DetPhases) (calls : List (Bool × Bool)) (st : DetState) (wu inc : Bool) :
+    (detRun P wu inc (calls.foldl (fun s c => (detRun P c.1 c.2 s).2) st)).1 = (detRun P wu inc DetState.init).1 :=
+  changes_with_renames_stateless P wu inc _
+
+/-- non-vacuity / what the theorem excludes: with phases whose cut-off trips and whose `choose` appends the candidates,
+a detector that kept stale candidates would return them — the clean model returns none -/
+example : (detRun { collect := fun _ _ s => s, exact := id, shouldFind := fun _ _ => false, score := fun _ _ => [],
+                    choose := fun c s => (s.1, s.2.1, s.2.2 ++ c.map (·.2)), join := id,
+                    pruneUnchanged := fun _ d => d, sorted := fun a d c => a ++ d ++ c } false false
+      { candidates := [(-100, ⟨.rename, some ⟨[[0x61]], 0o100644, idA⟩, some ⟨[[0x62]], 0o100644, idA⟩⟩)] }).1 = [] := by
+  decide
+
 /-! ## _merge_entries, tree_lookup_path, byte paths -/
 
 /-- The two-pointer merge, right view: on name-ordered inputs the merged pairs that have a right side are exactly
